@@ -788,6 +788,7 @@ impl<'a> AnalyzeContext<'a, '_> {
     // Resolve an index used in an array attribute such as arr_t'left(0) to an index type
     pub(crate) fn array_index_expression_in_attribute(
         &self,
+        scope: &Scope<'a>,
         indexes: &[Option<BaseType<'a>>],
         mut expr: Option<&mut WithTokenSpan<Expression>>,
         diagnostics: &mut dyn DiagnosticHandler,
@@ -798,6 +799,8 @@ impl<'a> AnalyzeContext<'a, '_> {
             {
                 idx as usize
             } else {
+                // The value is not evaluated but the names within the expression must still be resolved
+                self.array_attribute_dimension(scope, Some(expr), diagnostics)?;
                 diagnostics.add(
                     expr.span.pos(self.ctx),
                     "Expected an integer literal",
@@ -825,6 +828,19 @@ impl<'a> AnalyzeContext<'a, '_> {
             }
             Err(EvalError::Unknown)
         }
+    }
+
+    // Analyze the optional dimension argument of an array attribute such as arr_t'length(N)
+    pub(crate) fn array_attribute_dimension(
+        &self,
+        scope: &Scope<'a>,
+        expr: Option<&mut WithTokenSpan<Expression>>,
+        diagnostics: &mut dyn DiagnosticHandler,
+    ) -> FatalResult {
+        if let Some(expr) = expr {
+            self.expr_with_ttyp(scope, self.universal_integer().into(), expr, diagnostics)?;
+        }
+        Ok(())
     }
 
     pub(crate) fn resolve_view_ent(
@@ -879,6 +895,7 @@ impl<'a> AnalyzeContext<'a, '_> {
 
                 if let Some((_, indexes)) = typ.array_type() {
                     self.array_index_expression_in_attribute(
+                        scope,
                         indexes,
                         attr.expr.as_mut().map(|expr| expr.as_mut()),
                         diagnostics,
@@ -902,6 +919,11 @@ impl<'a> AnalyzeContext<'a, '_> {
                 let typ = prefix.as_type_of_attr_prefix(self.ctx, prefix_pos, attr, diagnostics)?;
 
                 if typ.array_type().is_some() {
+                    self.array_attribute_dimension(
+                        scope,
+                        attr.expr.as_mut().map(|expr| expr.as_mut()),
+                        diagnostics,
+                    )?;
                     Ok(ResolvedName::Expression(DisambiguatedType::Unambiguous(
                         self.boolean(),
                     )))
@@ -1038,6 +1060,11 @@ impl<'a> AnalyzeContext<'a, '_> {
                 let typ = prefix.as_type_of_attr_prefix(self.ctx, prefix_pos, attr, diagnostics)?;
 
                 if typ.array_type().is_some() {
+                    self.array_attribute_dimension(
+                        scope,
+                        attr.expr.as_mut().map(|expr| expr.as_mut()),
+                        diagnostics,
+                    )?;
                     Ok(ResolvedName::Expression(DisambiguatedType::Unambiguous(
                         self.universal_integer().into(),
                     )))
@@ -1096,18 +1123,25 @@ impl<'a> AnalyzeContext<'a, '_> {
                     Err(EvalError::Unknown)
                 }
             }
-            AttributeDesignator::Range(_) => match prefix {
-                ResolvedName::Type(typ) => Ok(ResolvedName::Type(*typ)),
-                ResolvedName::ObjectName(oname) => Ok(ResolvedName::Type(oname.type_mark())),
-                _ => {
-                    diagnostics.add(
-                        name_pos.pos(self.ctx),
-                        format!("Range attribute cannot be used on {}", prefix.describe()),
-                        ErrorCode::MismatchedKinds,
-                    );
-                    Err(EvalError::Unknown)
+            AttributeDesignator::Range(_) => {
+                self.array_attribute_dimension(
+                    scope,
+                    attr.expr.as_mut().map(|expr| expr.as_mut()),
+                    diagnostics,
+                )?;
+                match prefix {
+                    ResolvedName::Type(typ) => Ok(ResolvedName::Type(*typ)),
+                    ResolvedName::ObjectName(oname) => Ok(ResolvedName::Type(oname.type_mark())),
+                    _ => {
+                        diagnostics.add(
+                            name_pos.pos(self.ctx),
+                            format!("Range attribute cannot be used on {}", prefix.describe()),
+                            ErrorCode::MismatchedKinds,
+                        );
+                        Err(EvalError::Unknown)
+                    }
                 }
-            },
+            }
             AttributeDesignator::Type(attr) => self
                 .resolve_type_attribute_suffix(prefix, prefix_pos, &attr, name_pos, diagnostics)
                 .map(|typ| ResolvedName::Type(typ.base().into())),
